@@ -638,26 +638,36 @@ func (c *converter) fullSyncTCP() {
 
 func (c *converter) fullSyncAnnotations() {
 	c.fullSyncTCP()
-	for _, host := range c.haproxy.Hosts().Items() {
-		if ann, found := c.hostAnnotations[host]; found {
-			c.updater.UpdateHostConfig(host, ann)
-		}
-	}
-	for _, backend := range c.haproxy.Backends().Items() {
-		if ann, found := c.backendAnnotations[backend]; found {
-			c.updater.UpdateBackendConfig(backend, ann)
-		}
-	}
+	c.syncAnnotations(c.haproxy.Hosts().Items(), c.haproxy.Backends().Items())
 }
 
 func (c *converter) partialSyncAnnotations() {
 	c.fullSyncTCP()
-	for _, host := range c.haproxy.Hosts().ItemsAdd() {
+	c.syncAnnotations(c.haproxy.Hosts().ItemsAdd(), c.haproxy.Backends().ItemsAdd())
+}
+
+// syncAnnotations visits hosts and backends in a stable order: some of the
+// configurations depend on what was already configured, eg a redirect
+// source or an auth proxy port that only the first one asking for it gets.
+func (c *converter) syncAnnotations(hosts map[string]*hatypes.Host, backends map[string]*hatypes.Backend) {
+	hostnames := make([]string, 0, len(hosts))
+	for hostname := range hosts {
+		hostnames = append(hostnames, hostname)
+	}
+	sort.Strings(hostnames)
+	for _, hostname := range hostnames {
+		host := hosts[hostname]
 		if ann, found := c.hostAnnotations[host]; found {
 			c.updater.UpdateHostConfig(host, ann)
 		}
 	}
-	for _, backend := range c.haproxy.Backends().ItemsAdd() {
+	backendIDs := make([]string, 0, len(backends))
+	for backendID := range backends {
+		backendIDs = append(backendIDs, backendID)
+	}
+	sort.Strings(backendIDs)
+	for _, backendID := range backendIDs {
+		backend := backends[backendID]
 		if ann, found := c.backendAnnotations[backend]; found {
 			c.updater.UpdateBackendConfig(backend, ann)
 		}
